@@ -46,7 +46,14 @@ InList(list, nm) == \E i \in 1 .. Len(list) : list[i] = nm
 RECURSIVE IsSubSeqFrom(_, _, _, _)
 IsSubSeqFrom(l, i, ref, j) == IF i > Len(l) THEN TRUE ELSE IF j > Len(ref) THEN FALSE
                               ELSE IF l[i] = ref[j] THEN IsSubSeqFrom(l, i + 1, ref, j + 1) ELSE IsSubSeqFrom(l, i, ref, j + 1)
-BestFirst(list) == IsSubSeqFrom(list, 1, SpecNames, 1)
+\* "best-first" as a partial order (the properties fix no order between unrelated extensions of the same width): a wider register file
+\* first, and an architecture before everything it (transitively) extends
+RECURSIVE ExtendsN(_, _)
+ExtendsN(a, b) == IsSpecArch(a) /\ LET p == SpecArchs[SpecIdx(a)].parent IN p # "generic" /\ (p = b \/ ExtendsN(p, b))
+BetterN(a, b) == RegBytesOf(a) > RegBytesOf(b) \/ ExtendsN(a, b)
+BestFirst(list) == /\ \A i \in 1 .. Len(list) : IsSpecArch(list[i])
+                   /\ \A i, j \in 1 .. Len(list) : i < j => (list[i] # list[j] /\ ~BetterN(list[j], list[i]))
+ASSUME BestFirst(SpecNames)
 
 \* ---- invariants over records of the dumped shape ------------------------------------------------------
 ArchRecOK(a) ==
@@ -54,7 +61,7 @@ ArchRecOK(a) ==
   /\ (a.requires_alignment = 1 => a.alignment >= RegBytesOf(a.name))      \* what aligned loads of A require
   /\ (IsSpecArch(a.name) => a.alignment = RegBytesOf(a.name) /\ a.requires_alignment = 1)
   /\ (~IsSpecArch(a.name) => a.alignment >= 8)                              \* emulated: at least the widest element
-  /\ (IsSpecArch(a.name) => a.idx = SpecIdx(a.name))                        \* position in all_x86_architectures
+  /\ (IsSpecArch(a.name) => a.idx >= 1 /\ a.idx <= Len(SpecArchs))         \* listed in all_x86_architectures (the ORDER is ListRecOK's subject)
   \* the inheritance chain: every base is an ancestor in the specification, and the direct parent is among them
   /\ (IsSpecArch(a.name) =>
         /\ \A i \in 1 .. Len(a.bases) : IsSpecArch(a.bases[i]) /\ SpecIdx(a.bases[i]) > SpecIdx(a.name)
@@ -82,7 +89,7 @@ ListRecOK(L, archs) ==
         /\ BestFirst(L.archs)
         /\ \A i \in 1 .. Len(L.archs) : \A j \in 1 .. Len(archs[L.archs[i]].bases) :
               LET b == archs[L.archs[i]].bases[j] IN InList(L.archs, b) => Pos(L.archs, b) > i)
-  /\ (L.name = "all_x86" => L.archs = SpecNames)
+  /\ (L.name = "all_x86" => Len(L.archs) = Len(SpecNames) /\ \A i \in 1 .. Len(SpecNames) : InList(L.archs, SpecNames[i]))     \* every x86 architecture, once
   /\ (L.name = "supported" => \A i \in 1 .. Len(L.archs) : archs[L.archs[i]].supported = 1)
   /\ (L.name = "supported" => \A nm \in DOMAIN archs : (archs[nm].supported = 1 /\ IsSpecArch(nm)) => InList(L.archs, nm))
 =============================================================================
